@@ -33,6 +33,19 @@ static bool makeInitial0(const json& src, NifFile& nif, Ctx& ctx, std::string* f
 	}
 	if (src.contains("synth")) return synthInitial(src["synth"], nif, ctx, fileBytes);
 	if (src.contains("builder")) {
+		if (src.contains("prior_terrain_load")) {
+			// F-REUSE: the object has loaded another file before, as terrain (a load option that must not outlive the load)
+			auto it = samples().find(src["prior_terrain_load"].get<std::string>());
+			if (it != samples().end()) {
+				SimIBuf ib(it->second);
+				std::istream is(&ib);
+				NifLoadOptions lo;
+				lo.isTerrain = true;
+				nif.Load(is, lo);
+				ctx.fault("F-REUSE");
+				ctx.probe("object_loaded_terrain_before");
+			}
+		}
 		if (!builderInitial(src["builder"], nif, ctx)) return false;
 		if (src.contains("attach")) {
 			// populated blocks of arbitrary registered types hung below a shape (type-fitting, via carrier blocks if needed)
